@@ -8,6 +8,9 @@ package control
 //
 // Ops (same driver as the outbound harness): world / group / sample / told / pen / policy, and
 //   choose <t|u> <4|6> 0 2 <strict> <excl|->     the selection network type chooseProxyDialer derives
+//   dial <i|p|c> <u|r|x> <n|d|l> <routedReserved> <t|u> <src 4|6> <dst 4|6> <excl|-> <o|u|e>
+//        the real routeDial: dial mode, outbound handed over, sniffed domain kind, whether the matcher routes it
+//        to a reserved outbound, flow, exclusion, scripted outcome of the first dial
 // answered with `ok d:sel:fam` (node, admitting domain, family handed to the dial) for every admissible answer.
 
 import (
